@@ -99,6 +99,20 @@ def mirror(ctx, r):
                     r.ob(ok, f"{short}:VmType for {impl['self_ty']}:from_vm:exit-without-consuming", file, ex["l"],
                          f"from_vm of {impl['self_ty']} returns at line {ex['l']} without having popped or deconstructed the value it converts (array_len / top only look): the value stays on the VM stack and the next argument or element the host unpacks reads it instead",
                          sample=f"{impl['self_ty']}: early exit of from_vm has consumed the value")
+                # a variant taken apart leaves its tag and its payload: once the tag is popped, every arm that decides by the
+                # tag takes the payload too (a variant without data still carries a placeholder)
+                if any(x["k"] == "MethodCall" and x["m"] == "deconstruct_variant" for x in q.walk(f["body"])):
+                    for m_ in q.walk(f["body"]):
+                        if m_["k"] != "Match":
+                            continue
+                        for a_ in m_["arms"]:
+                            if a_["pat"].get("k") != "PLit":
+                                continue
+                            n_exits += 1
+                            takes = any((x["k"] == "Call" and q.show(x["f"]).endswith(("::from_vm", "::from_vm_unsafe"))) or (x["k"] == "MethodCall" and q.show(x["recv"]) == "vm" and x["m"].startswith("pop")) for x in q.walk(a_["body"]))
+                            r.ob(takes, f"{short}:VmType for {impl['self_ty']}:from_vm:tag-{a_['pat'].get('v')}:payload-left-on-the-stack", file, a_["l"],
+                                 f"from_vm of {impl['self_ty']}: the arm for tag {a_['pat'].get('v')} does not take the payload that deconstruct_variant pushed (a data-less variant carries a placeholder): it stays on the VM stack, and the previous argument or the next element the host unpacks receives it instead of its own value",
+                                 sample=f"{impl['self_ty']}: tag {a_['pat'].get('v')} arm takes the payload")
                 n_exits += 1
                 r.ob(consumes(f["body"]), f"{short}:VmType for {impl['self_ty']}:from_vm:never-consumes", file, f["l"], f"from_vm of {impl['self_ty']} never takes a value off the VM stack", sample=f"{impl['self_ty']}: from_vm consumes")
     r.count("from_vm exits", n_exits, 16, HB)
